@@ -435,6 +435,14 @@ func corpusC13() []*Bundle {
 			mk("parallel-joins", true, strat, "SELECT * FROM t x PARALLEL JOIN u y ON x.id = y.id", "SELECT * FROM t x PARALLEL HASH_JOIN u y ON x.id = y.id"),
 			mk("shared-cte", true, strat, "WITH c AS (SELECT id FROM t) SELECT * FROM c", "SELECT id FROM t"),
 		)
+		// the workers of one PARALLEL join fail at the same time, each in its own way (a returned error, a panic with a
+		// string, a panic with an error): whatever collects the failures gets values of different Go types
+		for _, jt := range []string{"PARALLEL JOIN", "PARALLEL LEFT JOIN", "PARALLEL STRAIGHT_JOIN"} {
+			b := mk("pjoin-workers-fail-differently", false, strat, fmt.Sprintf("SELECT * FROM t x %s u y ON x.id <= y.id AND fid(1, TRUE)", jt))
+			b.Case.Stubs.Faults = []casefmt.Fault{{ID: 1, K: 1, Kind: "error"}, {ID: 1, K: 2, Kind: "panic_str"}, {ID: 1, K: 3, Kind: "panic"}}
+			b.Case.Stubs.Lat = []casefmt.LatRule{{ID: 1, Call: -1, Ns: 1000000}}
+			out = append(out, b)
+		}
 	}
 	return out
 }
